@@ -19,7 +19,8 @@ TECHNIQUE = ('bounded exhaustive enumeration of generated programs: every synthe
              '(editions x responses x zones x energy groups x time steps x printing orders x value/sigma patterns x convergence x keff) '
              'and every Apollo3 HDF5 file over a small alphabet of sizes is written from known ground truth and read back through the real '
              'Parser / Reader / Picker')
-RULE = ('Tripoli-4: listings = product of editions {1,2} x responses {1,2} x zones {1,2} x energy groups {1,2,3} printed decreasing or '
+RULE = ('[Apollo3 also: a listed isotope (ISOTOPE / CONCEN) without a result group, followed by isotopes that have one] ' +
+        'Tripoli-4: listings = product of editions {1,2} x responses {1,2} x zones {1,2} x energy groups {1,2,3} printed decreasing or '
         'increasing x time steps {none, 2 increasing, 2 decreasing [3]} x value patterns {plain, (negative, zero, small[, 1e30])} x sigma '
         'patterns x {converged, not converged} x keff {absent, present, not converged}, plus angular spectra (2-3 mu zones, 0-2 phi zones inside, each '
         'printed increasing or decreasing, with / without time steps) and results on a mesh (5 mesh sizes up to 2x1x3 cells x energy ranges, '
